@@ -72,12 +72,17 @@ def has_sym(a):
     return False
 
 
+def _base(a):
+    """plain ndarray view (subclasses such as darsia's point arrays override __getitem__)"""
+    return a if type(a) is _np.ndarray else a.view(_np.ndarray)
+
+
 def really_sym(a):
     """contains at least one Sym instance"""
     if isinstance(a, Sym):
         return True
     if isinstance(a, _np.ndarray):
-        return a.dtype == object and any(isinstance(e, Sym) for e in a.ravel())
+        return a.dtype == object and any(isinstance(e, Sym) for e in _base(a).ravel())
     if isinstance(a, (list, tuple)):
         return any(really_sym(x) for x in a)
     return False
@@ -87,7 +92,7 @@ def demote(a):
     """object array without symbolic entries -> numeric array (bool / int / float)"""
     if not is_symarr(a):
         return a
-    flat = a.ravel()
+    flat = _base(a).ravel()
     if any(isinstance(e, Sym) for e in flat):
         return a
     if a.size == 0:
@@ -266,7 +271,7 @@ def sx_isinstance(x, T):
 
 
 def logical_dtype(x):
-    flat = x.ravel()
+    flat = _base(x).ravel()
     if len(flat) == 0:
         return _np.dtype(_np.float64)
     if all(isinstance(e, (SymBool, bool, _np.bool_)) for e in flat):
@@ -340,7 +345,7 @@ def sx_cmp(op, a, b):
 
 
 def _is_symmask(k):
-    return isinstance(k, _np.ndarray) and k.dtype == object and any(isinstance(e, SymBool) for e in k.ravel())
+    return isinstance(k, _np.ndarray) and k.dtype == object and any(isinstance(e, SymBool) for e in _base(k).ravel())
 
 
 def _demote_key(k):
@@ -354,7 +359,7 @@ def _demote_key(k):
         f = lambda v: v.__index__() if isinstance(v, Sym) else v  # noqa: E731
         return slice(f(k.start), f(k.stop), f(k.step))
     if isinstance(k, _np.ndarray) and k.dtype == object:
-        flat = k.ravel()
+        flat = _base(k).ravel()
         if any(isinstance(e, SymBool) for e in flat):
             return k
         if k.size and all(isinstance(e, (bool, _np.bool_)) for e in flat):
@@ -592,13 +597,18 @@ class NumpyProxy:
                     ld = logical_dtype(proto)
                     if ld.kind == "f":
                         return _obj_filled(_np.shape(proto), float(v))
-                    return None if False else _np.full(_np.shape(proto), v, dtype=ld)
+                    if really_sym(proto):
+                        return _obj_filled(_np.shape(proto), bool(v) if ld.kind == "b" else int(v))
+                    return _np.full(_np.shape(proto), v, dtype=ld)
                 if isinstance(proto, _np.ndarray) and proto.dtype.kind == "f":
                     return _obj_filled(proto.shape, float(v))
                 if isinstance(proto, (list, tuple)) and has_sym(proto):
                     return _obj_filled(_np.shape(_np.asarray(proto, dtype=object)), float(v))
             elif _norm_dtype(dtype) == "f":
                 return _obj_filled(_np.shape(proto), float(v))
+            elif _norm_dtype(dtype) == "i" and really_sym(proto):
+                # an integer work array shaped like symbolic data will receive symbolic values
+                return _obj_filled(_np.shape(proto), int(v))
         return None
 
     def zeros_like(self, proto, dtype=None, **k):
